@@ -5,6 +5,7 @@ import (
 	"go/token"
 	"go/types"
 	"sort"
+	"strings"
 
 	"golang.org/x/tools/go/ssa"
 )
@@ -354,6 +355,8 @@ func c09Gate(c *Ctx, r *Report, w, ev *ssa.Function) {
 	c09Ctx(c, r)
 	r.rule("C09.KEYORERR", "every path through the field resolver stores the field's response key or appends a constructed error before it returns")
 	c09KeyOrError(c, r, c.anchors(), "C09.KEYORERR")
+	c09DirKinds(c, r)
+	c09FreshResult(c, r, c.anchors())
 }
 
 // c09Ctx: SetContextRecursive is the one documented way to touch a parsed request between parse and resolve.
@@ -791,4 +794,155 @@ func c09KeyOrError(c *Ctx, r *Report, a *Anchors, rule string) {
 	}
 	r.check(rule, fnName(fn)+": every return follows a store of the field's key or a reported error", pos, witness == nil, d)
 	r.floor(rule, "returns of the field resolver", n, 3)
+}
+
+// c09DirKinds: "on each of the three selection kinds": sibling agreement between the arms of every function
+// that distinguishes the kinds of Selection by a type switch. If the arm of one kind looks at the directive
+// uses of the selection (a load of SelBase.Dirs, a call of Directives()), the arms of the other kinds that
+// function handles do so too. A walker that collects what the directives of fields refer to, and forgets the
+// directives of inline fragments and spreads, treats a variable used only in `... @include(if: $v)` as unused.
+func c09DirKinds(c *Ctx, r *Report) {
+	r.rule("C09.DIRKINDS", "in every function that switches over the kinds of Selection, either every handled kind's arm reads the selection's directive uses or none does")
+	kinds := map[string]bool{"Field": true, "Inline": true, "FragRef": true}
+	n := 0
+	for _, fn := range c.allFns {
+		if !c.inPkg(fn) {
+			continue
+		}
+		// arms: body blocks entered on the success edge of an assertion of a Selection-typed value to a kind
+		type arm struct {
+			kind  string
+			body  *ssa.BasicBlock
+			reads bool
+		}
+		var arms []*arm
+		for _, b := range fn.Blocks {
+			if len(b.Instrs) == 0 {
+				continue
+			}
+			ifi, ok := b.Instrs[len(b.Instrs)-1].(*ssa.If)
+			if !ok {
+				continue
+			}
+			f, ok := assertFactOf(guard{ifi.Cond, true, ifi})
+			if !ok || !f.holds || !c.isNamed(f.x.Type(), "Selection") {
+				continue
+			}
+			k := derefNamed(f.t)
+			if !kinds[k] {
+				continue
+			}
+			arms = append(arms, &arm{kind: k, body: b.Succs[0]})
+		}
+		if len(arms) < 2 {
+			continue
+		}
+		for _, a := range arms {
+			for _, b := range fn.Blocks {
+				if !(b == a.body || a.body.Dominates(b)) {
+					continue
+				}
+				for _, in := range b.Instrs {
+					switch t := in.(type) {
+					case *ssa.FieldAddr:
+						if _, f := fieldOwner(t.X.Type(), t.Field); f == "Dirs" {
+							a.reads = true
+						}
+					case ssa.CallInstruction:
+						if t.Common().IsInvoke() && t.Common().Method.Name() == "Directives" {
+							a.reads = true
+						}
+					}
+				}
+			}
+		}
+		any, all := false, true
+		for _, a := range arms {
+			if a.reads {
+				any = true
+			} else {
+				all = false
+			}
+		}
+		n++
+		r.fnSeen(fnName(fn))
+		var lacking []string
+		for _, a := range arms {
+			if !a.reads {
+				lacking = append(lacking, a.kind)
+			}
+		}
+		sort.Strings(lacking)
+		r.check("C09.DIRKINDS", fmt.Sprintf("%s: the arms for the kinds of selection agree on looking at directive uses", fnName(fn)), fn.Pos(), !any || all,
+			"the arm(s) for "+strings.Join(lacking, ", ")+" do not look at the directive uses of the selection while another arm does: what the function derives from directives (variables used, conditions) is incomplete for those kinds, although @skip/@include apply to them alike")
+	}
+	r.floor("C09.DIRKINDS", "functions switching over the kinds of Selection", n, 2)
+}
+
+// c09FreshResult: which selections are in the response is decided by evaluating the directives with the
+// variables of THIS call. The functions the type dispatcher hands a value to (and the dispatcher itself)
+// return results they built during the call: no returned result is read out of state kept on the Root (a
+// table of earlier results keyed by request text knows the text of `@include(if: $v)`, not the value of $v).
+func c09FreshResult(c *Ctx, r *Report, a *Anchors) {
+	r.rule("C09.FRESHRES", "no result returned by the type dispatcher or a function it calls is loaded from state of the Root")
+	if a.dispatch == nil {
+		r.undecided("C09.FRESHRES", "anchor: type dispatcher", token.NoPos, "not found")
+		return
+	}
+	fns := []*ssa.Function{a.dispatch}
+	seen := map[*ssa.Function]bool{a.dispatch: true}
+	for _, ci := range callsIn(a.dispatch) {
+		cal := ci.Common().StaticCallee()
+		if cal == nil || !c.inPkg(cal) || seen[cal] || len(cal.Blocks) == 0 {
+			continue
+		}
+		if res := cal.Signature.Results(); res.Len() == 0 || !isEmptyIface(res.At(0).Type()) {
+			continue
+		}
+		seen[cal] = true
+		fns = append(fns, cal)
+	}
+	n := 0
+	for _, fn := range fns {
+		if len(fn.Params) == 0 || !c.isNamed(fn.Params[0].Type(), "Root") {
+			continue
+		}
+		recv := fn.Params[0]
+		k := 0
+		for _, rt := range returnsOf(fn) {
+			if len(rt.Results) == 0 {
+				continue
+			}
+			n++
+			k++
+			bad := ""
+			leaves, _ := phiLeaves(resolveCell(rt.Results[0]))
+			for _, lf := range leaves {
+				v := lf.val
+				for i := 0; i < 6; i++ {
+					switch t := v.(type) {
+					case *ssa.Extract:
+						v = t.Tuple
+						continue
+					case *ssa.Lookup:
+						v = t.X
+						continue
+					case *ssa.MakeInterface:
+						v = t.X
+						continue
+					case *ssa.UnOp:
+						if rootValueOfLoad(t.X) == ssa.Value(recv) {
+							if _, o, f, ok := loadOfField(t); ok && o == "Root" {
+								bad = "Root." + f
+							}
+						}
+					}
+					break
+				}
+			}
+			r.check("C09.FRESHRES", fmt.Sprintf("%s: result #%d is built by this call", fnName(fn), k), rt.Pos(), bad == "",
+				"the result is read from "+bad+", kept from an earlier call: what was excluded or included then (for other variable values) is answered again")
+		}
+	}
+	r.floor("C09.FRESHRES", "returns of the dispatcher and the functions it hands values to", n, 5)
 }
